@@ -147,6 +147,7 @@ class Grammar:
             opnames |= {"Op", "Operation"}
             b = Builder(fname, rel, fn, self.liveness.is_live(fname))
             self._collect(b, fn.body, seqnames, opnames, ())
+            b.opaque = self._opaque(b, seqnames, opnames - {"Op", "Operation"})
             counts = {}
             for it in b.items:
                 key = (it.kind, it.type if it.kind == "op" else it.callee)
@@ -158,6 +159,89 @@ class Grammar:
         for fname in self.builders:
             if fname not in self.liveness.live_funcs:
                 pass
+
+    def _opaque(self, b, seqnames, opnames):
+        """uses of the sequence object / the operation factory that the grammar extraction does not follow: the
+        sequence handed to another function or method, an operation built but not inserted directly, an insert of
+        something that is not `operation(<literal type>, index)`.  What such a construct appends is unknown, so no
+        rule may refute from the *absence* or the *adjacency* of items of this builder."""
+        parsed = {id(it.node) for it in b.items}
+        out = []
+        dead = self.liveness.dead_nodes
+
+        def visit(stmts):
+            for s in stmts:
+                if id(s) in dead:
+                    continue
+                if id(s) in parsed:
+                    continue
+                if isinstance(s, ast.Return) and isinstance(s.value, ast.Name) and s.value.id in seqnames:
+                    continue
+                if isinstance(s, (ast.If, ast.For, ast.While, ast.With, ast.Try)):
+                    heads = [getattr(s, "test", None), getattr(s, "iter", None)]
+                    for h in heads:
+                        if h is not None:
+                            check(h, s)
+                    for fld in ("body", "orelse", "finalbody"):
+                        visit(getattr(s, fld, []) or [])
+                    for h in getattr(s, "handlers", []):
+                        visit(h.body)
+                    continue
+                if isinstance(s, ast.Assign) and len(s.targets) == 1 and isinstance(s.targets[0], ast.Name) \
+                        and s.targets[0].id in (seqnames | opnames):
+                    continue            # the defining assignments
+                check(s, s)
+
+        parent = {}
+        for n in ast.walk(b.fn):
+            for c in ast.iter_child_nodes(n):
+                parent[id(c)] = n
+
+        def read_only(x):
+            """a load of the sequence object (or of a read-only alias) that only inspects it: `x.attr`, `x.attr[k]`,
+            compared or assigned on, never called, never passed on"""
+            p_ = parent.get(id(x))
+            if isinstance(p_, ast.Attribute) and isinstance(p_.ctx, ast.Load):
+                pp = parent.get(id(p_))
+                if isinstance(pp, ast.Call) and pp.func is p_:
+                    return False
+                return True
+            return False
+        # read-only aliases: `a = sequence` / `a = a.sequence[-1]` where every load of `a` only inspects it
+        aliases = set()
+        for n in ast.walk(b.fn):
+            if isinstance(n, ast.Assign) and len(n.targets) == 1 and isinstance(n.targets[0], ast.Name) \
+                    and isinstance(n.value, ast.Name) and n.value.id in seqnames:
+                a = n.targets[0].id
+                loads = [x for x in ast.walk(b.fn) if isinstance(x, ast.Name) and x.id == a and isinstance(x.ctx, ast.Load)]
+                if all(read_only(x) for x in loads):
+                    aliases.add(a)
+
+        def check(node, stmt):
+            if isinstance(stmt, ast.Assign) and len(stmt.targets) == 1 and isinstance(stmt.targets[0], ast.Name) \
+                    and stmt.targets[0].id in aliases:
+                return
+            for x in ast.walk(node):
+                if isinstance(x, ast.Name) and isinstance(x.ctx, ast.Load) and x.id in seqnames:
+                    if read_only(x):
+                        continue
+                    out.append((getattr(stmt, "lineno", 0), f"the sequence object `{x.id}` is used in `"
+                                + " ".join(ast.unparse(stmt).split())[:70] + "`, which the grammar extraction does not follow"))
+                    return
+                if isinstance(x, ast.Name) and isinstance(x.ctx, ast.Load) and x.id in opnames:
+                    out.append((getattr(stmt, "lineno", 0), f"an operation is built in `"
+                                + " ".join(ast.unparse(stmt).split())[:70] + "` but not inserted there"))
+                    return
+        visit(b.fn.body)
+        return out
+
+    def taint(self):
+        """construct prefix -> reasons, for builders with constructs outside the extracted fragment"""
+        out = {}
+        for f, b in self.builders.items():
+            if b.live and b.opaque:
+                out[f"{b.rel[:-3].replace('/', '.')}.{f}"] = list(b.opaque[:4])
+        return out
 
     def _collect(self, b, stmts, seqnames, opnames, path):
         run = []
